@@ -222,7 +222,11 @@ class StreamReaderBufferedProtocol(asyncio.BufferedProtocol):
 
     def get_buffer(self, sizehint: int) -> WriteableBuffer:
         if (external_buffer_view := self.__external_buffer_view) is not None:
-            return external_buffer_view
+            if (waiter := self.__read_waiter) is not None and not waiter.done():
+                return external_buffer_view
+            # The reader has been cancelled (but its task did not run yet): nobody would be told about
+            # the bytes written in its buffer. Use the internal buffer instead.
+            self.__external_buffer_view = None
         # Ignore sizehint, the buffer is already at its maximum size.
         # Returns unused buffer part
         if self.__buffer is None:
@@ -336,6 +340,10 @@ class StreamReaderBufferedProtocol(asyncio.BufferedProtocol):
                 self.__external_buffer_view = external_buffer
                 try:
                     nbytes_written_in_external_buffer = await self.__read_waiter
+                except asyncio.CancelledError:
+                    if external_buffer is not None:
+                        self.__keep_data_written_in_external_buffer(self.__read_waiter, external_buffer)
+                    raise
                 finally:
                     self.__external_buffer_view = None
         finally:
@@ -344,6 +352,31 @@ class StreamReaderBufferedProtocol(asyncio.BufferedProtocol):
         if nbytes_written_in_external_buffer is None:
             self._check_for_connection_lost()
         return nbytes_written_in_external_buffer
+
+    def __keep_data_written_in_external_buffer(self, waiter: asyncio.Future[int | None], external_buffer: WriteableBuffer) -> None:
+        # The task has been cancelled after the event loop wrote data in the buffer given by the caller.
+        # These bytes must not be lost: put them (back) at the beginning of the internal buffer for the next read.
+        if not waiter.done() or waiter.cancelled() or waiter.exception() is not None:
+            return
+        nbytes = waiter.result()
+        if not nbytes or self.__buffer is None:
+            return
+        already_written = self.__buffer_nbytes_written
+        total = already_written + nbytes
+        with memoryview(external_buffer) as external_buffer_view:
+            if total > self.__buffer_view.nbytes:
+                new_buffer = bytearray(total)
+                new_buffer[:nbytes] = external_buffer_view[:nbytes]
+                new_buffer[nbytes:total] = self.__buffer_view[:already_written]
+                self.__buffer_view.release()
+                self.__buffer = new_buffer
+                self.__buffer_view = memoryview(new_buffer)
+            else:
+                if already_written:
+                    self.__buffer_view[nbytes:total] = self.__buffer_view[:already_written]
+                self.__buffer_view[:nbytes] = external_buffer_view[:nbytes]
+        self.__buffer_nbytes_written = total
+        self._maybe_pause_transport()
 
     def _read_waiter_fut(self, set_result_cb: Callable[[asyncio.Future[int | None]], None]) -> None:
         if (waiter := self.__read_waiter) is not None:
